@@ -50,7 +50,11 @@ def fold_sep(I: Interp, f: FuncInfo, e: ast.expr):
 
 
 def fold_count(I: Interp, f: FuncInfo, e: ast.expr):
-    """Fold a maxsplit expression; understands len(self.fields) inside the message schema."""
+    """Fold a maxsplit expression; understands len(self.fields) inside the message schema and single-assignment locals."""
+    if isinstance(e, ast.Name):
+        from ..prov import Canon
+
+        e = Canon(I, f, "").tree(e)
     if isinstance(e, ast.Constant) and isinstance(e.value, int):
         return e.value
     if isinstance(e, ast.BinOp) and isinstance(e.op, (ast.Sub, ast.Add)):
@@ -201,6 +205,11 @@ def field_decl(ctx, schema: ClassInfo, name: str):
 
 def validator_record(ctx, m: Module, e: ast.expr):
     I = ctx.I
+    if isinstance(e, ast.Name):
+        # a validator kept in a module-level constant: follow it to its defining call
+        fe = ctx.eea().field_expr(m, e)
+        if fe is not None:
+            m, e = fe
     if not isinstance(e, ast.Call):
         return {"kind": "unknown", "text": norm(e)}
     d = I.prog.resolve_expr(m, e.func)
